@@ -138,6 +138,9 @@ class Constructs(abstract.Container):
             if _view:
                 self.__dict__ = source.__dict__.copy()
                 self._ignore = _ignore
+                # The viewed constructs, through which the data axes
+                # of a parent field stay visible to the view
+                self._viewed = source.__dict__.get("_viewed", source)
                 return
 
             source_constructs = source._constructs
@@ -483,7 +486,11 @@ class Constructs(abstract.Container):
         >>> x = c._del_construct('auxiliarycoordinate2')
 
         """
-        data_axes = self.data_axes()
+        # The data axes of all metadata constructs, including those
+        # of any construct types that are ignored by a view (such as
+        # the field ancillaries when these are the constructs of a
+        # field's domain)
+        data_axes = self._construct_axes
 
         domain_axes = self._construct_dict("domain_axis")
 
@@ -500,7 +507,17 @@ class Constructs(abstract.Container):
                         f"spans the data array of metadata construct {xid!r}"
                     )
 
-            cell_methods = self._construct_dict("cell_method")
+            field_data_axes = getattr(self, "_viewed", self)._field_data_axes
+            if field_data_axes and key in field_data_axes:
+                if default is None:
+                    return default
+
+                raise ValueError(
+                    f"Can't remove domain axis construct {key!r} that "
+                    "is spanned by the data of the field construct"
+                )
+
+            cell_methods = self._constructs.get("cell_method", {})
             for xid, cm in cell_methods.items():
                 if key in cm.get_axes(()):
                     if default is None:
